@@ -96,7 +96,8 @@ _add(PropertySpec(
 # metarize establishes the table invariant that C01 / C02 rely on
 SPECS['C01'].functions += ['ampycloud.data.CeiloChunk.metarize', 'ampycloud.data.CeiloChunk._calculate_cloud_amount',
                            'ampycloud.data.CeiloChunk._setup_sligrolay_pdf', 'ampycloud.data.CeiloChunk._calculate_sligrolay_base_height']
-SPECS['C02'].functions += ['ampycloud.data.CeiloChunk.metarize']
+SPECS['C02'].functions += ['ampycloud.data.CeiloChunk.metarize', 'ampycloud.data.AbstractChunk._cleanup_pdf']
+SPECS['C02'].lemmas += ['cnt_union', 'cnt_ext']
 
 
 # ---------------------------------------------------------------------------------------------
@@ -415,3 +416,28 @@ SPECS['C15'] = PropertySpec(
     assumptions=[A_FRAME, 'assumed pandas contracts of the input-frame dialect (pyvc/inframe_model.py): deepcopy, astype, drop, duplicated, inner merge',
                  'dt values are not NaN (an inner merge would match NaN keys)', 'hardcoded.REQ_DATA_COLS is the documented dictionary (pinned by its source text)'],
 )
+
+
+# ---- bounded companions of the `proof` properties: native oracles written from the property text.  They are not needed for the
+# ---- proofs; they decide (with a concrete failing input) when a change moves the code outside the verified dialect, and they
+# ---- exercise the assumed library contracts on real runs.
+def _b_c02(run):
+    from bounded import c01
+    return c01.bounded_c02(run)
+
+
+SPECS['C01'].bounded = _bounded('c01')
+SPECS['C02'].bounded = _b_c02
+SPECS['C17'].bounded = _bounded('c17')
+SPECS['C18'].bounded = _bounded('c18')
+for _pid, _txt in (('C01', 'BOUNDED (B) companion: on a scene grammar (incl. sparse multi-hit decks and high second hits) x parameter variants the '
+                           'message of a real run is compared with an independent reading of the listed sets (oktas recounted from the hits, '
+                           '1-3-5 selection re-derived, MSA applied).'),
+                   ('C02', 'PROVED (P) in the same check: the meaning of the high-cloud flag (_cleanup_pdf: raised exactly when more than '
+                           'MAX_HITS_OKTA0 hits lie above MSA + buffer, type >= 2 hits included).  BOUNDED (B) companion as for C01 (lowest set '
+                           'first, ceiling kept, NCD / NSC from the recounted hits above the limit).'),
+                   ('C17', 'BOUNDED (B) companion: all okta sequences up to length 4 (thorough 6) + sampled longer ones against an independent '
+                           'statement of the rule, incl. prefix independence.'),
+                   ('C18', 'BOUNDED (B) companion: perc2okta for all n/m up to m = 400 (thorough 3000) against exact rational arithmetic, okta2code '
+                           'on -12..12 and non-integers, height2code on a grid plus the floating-point neighbours of every coding boundary.')):
+    SPECS[_pid].explanation = SPECS[_pid].explanation + '  ' + _txt
